@@ -129,12 +129,35 @@ def run(inp):
     gives_up = {lb[1] for lb in labels if lb[0] == 2}
     trace = []          # after every Start: (k, method, observed state, methods of the calls parked in their body)
 
-    def state_of(k):
-        if k in results:
-            return [0, results[k]]
-        if gates.parked.get(k) is not None and gates.parked[k].is_set() and not gates.release[k].is_set():
+    alias = {}          # model call id -> real thread id (two waiters of the same kind are interchangeable)
+    kind_of = {}        # model call id -> (method, timeout class)
+    waiting = set()     # model ids the harness has seen blocked on a lock
+
+    def real_state(r):
+        if r in results:
+            return [0, results[r]]
+        if gates.parked.get(r) is not None and gates.parked[r].is_set() and not gates.release[r].is_set():
             return [1]
         return [2]
+
+    def state_of(k):
+        return real_state(alias[k])
+
+    def settle_grant(k, limit):
+        """The lock was released: one of the waiters of k's kind gets it; bind that real thread to k."""
+        cands = [j for j in waiting if kind_of[j] == kind_of[k]]
+        if k not in cands:
+            cands.append(k)
+        deadline = time.monotonic() + limit
+        while time.monotonic() < deadline:
+            for j in cands:
+                if real_state(alias[j])[0] in (0, 1):
+                    if j != k:
+                        alias[k], alias[j] = alias[j], alias[k]
+                    waiting.discard(k)
+                    return state_of(k)
+            time.sleep(0.002)
+        return state_of(k)
 
     def settle(k, limit):
         deadline = time.monotonic() + limit
@@ -165,6 +188,8 @@ def run(inp):
                 T = iosim.sx_tmo(T)
                 gates.for_call(k)
                 methods[k] = m
+                alias[k] = k
+                kind_of[k] = (m, None if T is None else (0 if T == 0 else ("giveup" if k in gives_up else "long")))
                 timeout = None if T is None else (0.0 if T == 0 else (-1.0 if T < 0 else (0.08 if k in gives_up else 20.0)))
                 th = threading.Thread(target=body, args=(k, m, timeout), name=f"call-{k}", daemon=True)
                 threads[k] = th
@@ -172,16 +197,20 @@ def run(inp):
                 parked_now = [methods[j] for j in order if j != k and state_of(j) == [1]]
                 th.start()
                 st = settle(k, SETTLE)
+                if st == [2]:
+                    waiting.add(k)
                 trace.append((k, m, T, st, parked_now))
             elif lb[0] == 1:
-                settle(lb[1], WATCHDOG)
+                settle_grant(lb[1], WATCHDOG)
             elif lb[0] == 2:
-                threads[lb[1]].join(WATCHDOG)
+                threads[alias[lb[1]]].join(WATCHDOG)
+                waiting.discard(lb[1])
             elif lb[0] == 3:
                 _, k, ok = lb
-                gates.ok[k] = bool(ok)
-                gates.release[k].set()
-                threads[k].join(WATCHDOG)
+                r = alias[k]
+                gates.ok[r] = bool(ok)
+                gates.release[r].set()
+                threads[r].join(WATCHDOG)
         final = [[k, state_of(k)] for k in order]
         free = [0 if send_lock.locked() else 1, 0 if recv_lock.locked() else 1]
     finally:
@@ -208,6 +237,9 @@ def gen_history(rng, max_calls):
     owner = {"s": None, "r": None}
     phase = {}          # k -> "wait-f" | "wait-inf" | "hold" | "done"
     meth = {}
+    tmo_of = {}
+    paired = set()       # waiters that share their lock with a waiter of the same kind: they never give up
+    paired_block = set()
     labels = []
     ncalls = rng.randint(1, max_calls)
     k = 0
@@ -222,7 +254,8 @@ def gen_history(rng, max_calls):
         if holding:
             choices += ["finish"] * 2
         for c in waiting:
-            if phase[c] == "wait-f" and owner[LOCK[meth[c]]] is not None:
+            if phase[c] == "wait-f" and owner[LOCK[meth[c]]] is not None and c not in paired \
+                    and not any(w != c and LOCK[meth[w]] == LOCK[meth[c]] for w in waiting):
                 choices.append(("giveup", c))
         if not choices:
             break
@@ -230,14 +263,26 @@ def gen_history(rng, max_calls):
         if ch == "start":
             m = rng.choice([0, 0, 1, 1, 2])
             lk = LOCK[m]
-            # never two waiters on one lock (which one a real lock wakes first is not determined)
-            if owner[lk] is not None and any(LOCK[meth[c]] == lk for c in waiting):
-                T = 0 if m != 2 else None
-                if m == 2:
-                    continue
+            same = [c for c in waiting if LOCK[meth[c]] == lk]
+            if owner[lk] is not None and same:
+                # a second waiter on the same lock: which one a real lock wakes first is not determined, so it must be
+                # of the SAME kind as the first (same method, same timeout class, neither gives up): interchangeable
+                first = same[0]
+                if len(same) >= 2 or first in paired_block:
+                    T = 0 if m != 2 else None
+                    if m == 2:
+                        continue
+                else:
+                    m = meth[first]
+                    T = tmo_of[first]
+                    if T == 0:
+                        continue
+                    paired.add(first)
+                    paired.add(k)
             else:
                 T = rng.choice([0, 5, 5, None]) if m != 2 else None
             meth[k] = m
+            tmo_of[k] = T
             labels.append([0, k, m, iosim.tmo_sx(T)])
             if owner[lk] is None:
                 if m == 2:
